@@ -87,12 +87,12 @@ def run(tier):
     lcfgs = [dict(c, consumers=[['exhaust']]) for c in lcfgs if (tier == 'thorough' or c['n'] == 2 or c['w'] == 1)]
     _e2.run_matrix('C04', 'oracle_values', [(c, 'L', bound) for c in lcfgs], res,
                    f'mode L, every source line, preemption bound {bound}')
-    bcfgs = [c for c in cfgs if c.get('backend', 't') == 't' and c['n'] <= 3 and c['w'] <= 2 and c['b'] <= 2
-             and len(c.get('consumers', [1])) == 1 and c.get('mode') != 'items']
-    if tier == 'quick':
-        bcfgs = [c for c in bcfgs if len(c.get('fail_fn') or {}) <= 1 and c.get('catch') in (None, True)]
-    _e2.run_matrix('C04', 'oracle_values', [(c, 'B', 2) for c in bcfgs], res,
-                   'mode B: visible operations, no reduction, preemption bound 2', cap=60000)
+    bcfgs = [dict(c, consumers=[['exhaust']]) for c in cfgs
+             if c.get('backend', 't') == 't' and 2 <= c['n'] <= 3 and c['w'] <= 2 and c['b'] <= 2
+             and c['consumers'][0] == ['exhaust'] and c.get('mode') != 'items']
+    bb = 1 if tier == 'quick' else 2
+    _e2.run_matrix('C04', 'oracle_values', [(c, 'B', bb) for c in bcfgs if tier == 'thorough' or c['w'] == 1 or c['n'] == 2], res,
+                   f'mode B: visible operations, no reduction, preemption bound {bb}', cap=60000)
     res.coverage['preemption_bound_completed'] = bound
     # pipelines whose stages are executed concurrently by the workers: every source line of lazy_dataset.core is a
     # scheduling point as well (lazily built per-stage state, e.g. cached key tuples or offsets, is shared by the workers)
